@@ -279,7 +279,7 @@ def _iter_is_post_order(ctx: Ctx, f: Func, it: ast.AST) -> Tuple[bool, str]:
     return False, f"`{norm(it)}` is not a complete post-order walk of the descendants"
 
 
-@rule("MUST", ["C01", "C02", "C03", "C04", "C07", "C08", "C09", "C13", "C15"], floor=30, section="3.1")
+@rule("MUST", ["C01", "C02", "C03", "C04", "C07", "C08", "C09", "C10", "C13", "C15"], floor=30, section="3.1")
 def must(ctx: Ctx) -> List[Ob]:
     """must-pass-through: every normal path of each primitive mutator performs the writes / calls that keep links and registries in step (link=>register, unlink=>unregister children-first)"""
     obs: List[Ob] = []
@@ -337,6 +337,27 @@ def must(ctx: Ctx) -> List[Ob]:
           "descendants of a removed node must be unregistered or re-parented")
     _dominates(ctx, obs, f, "children are handled before self is unregistered", unreg, _children_handled, ["C01"],
                "_unregister nulls _children: descendants would stay registered (count > reachable)")
+
+    # the position at which a node is taken out of a child list is its identity position in the *full* list: a method that
+    # TypedNode overrides (get_index() counts the siblings of the same kind only) gives another node's position there
+    for f_ in [g_ for g_ in m.all_funcs() if g_.cls == "Node" and g_.parent is None]:
+        q_ = f_.qualname
+        for c_ in ctx.env.calls_in.get(f_, []):
+            if isinstance(c_.func, ast.Attribute) and c_.func.attr == "pop" and c_.args and isinstance(c_.func.value, (ast.Attribute, ast.Name)):
+                from .util import resolve_expr as _rx
+
+                try:
+                    idx_ = _rx(ctx, f_, c_, c_.args[0])
+                except Exception:  # noqa: BLE001
+                    idx_ = c_.args[0]
+                over = [g_.qualname for x_ in ast.walk(idx_) if isinstance(x_, ast.Call) for g_, _r in ctx.env.callees(f_, x_)
+                        if g_.qualname.startswith("TypedNode.") or (g_.cls == "Node" and g_.name in m.classes["TypedNode"].methods)]
+                if q_ not in ("Node.remove", "Node.move_to") and not over:
+                    continue  # (elsewhere only the witness is reported)
+                obs.append(ctx.ob("MUST", ["C01", "C04", "C15", "C10"] if q_ not in ("Node.remove", "Node.move_to") else ["C01", "C04", "C15"], f_,
+                                  f"{q_}: the node is unlinked at its identity position in the full child list", c_, not over,
+                                  "" if not over else f"`{norm(c_)}`: the index comes from {sorted(set(over))[0]}, which TypedNode overrides (position among the siblings of "
+                                  "the same kind): in a typed tree with mixed kinds another node is taken out of the list and the removed one stays linked"))
 
     # --- Node.remove_children
     f = m.func("Node.remove_children")
